@@ -459,7 +459,9 @@ for _p in ("C09", "C10", "C11"):
     PROPS[_p]["lean_modules"].append("GoSup.Tie.Lts")
     PROPS[_p]["ties"] = list(PROPS[_p].get("ties", [])) + ["GoSup.Tie.Lts.tie_comp_table"]
 PROPS["C11"]["lean_modules"].append("GoSup.Props.C09L")
-PROPS["C11"]["theorems"] += ["GoSup.Props.C09L.c11_restart_stops_first", "GoSup.Props.C09L.c09_one_live_generation"]
+PROPS["C11"]["theorems"] += ["GoSup.Props.C09L.c11_restart_stops_first", "GoSup.Props.C09L.c09_one_live_generation",
+                             "GoSup.Props.C09L.c11_callback_failure_untouched", "GoSup.Props.C09L.c11_in_place",
+                             "GoSup.Props.C09L.c11_restart_order"]
 PROPS["C11"]["level_text"] += (" Concurrent model CompLts: in every interleaving a restart reload boots the new children only after "
                                "the previous generation has been stopped and its context cancelled (c11_restart_stops_first, "
                                "c09_one_live_generation).")
